@@ -66,6 +66,7 @@ def cases(draw):
         "upper": draw(st.sampled_from(["none", "all", "some"])),
         "extra": draw(st.sampled_from(["none", "V", "V+P", "zero-col"])),
         "int": draw(st.booleans()),
+        "index": draw(st.sampled_from(["default", "default", "reversed", "offset", "float"])),
     }
     env = draw(st.sampled_from(["plain", "plain", "cwd-dir", "path-copy", "path-reordered", "cwd-file"]))
     return {"system": system, "order": list(order), "mode": mode, "delta": delta, "nrandom": nrandom, "nrows": nrows,
@@ -165,6 +166,8 @@ def present(c, keys, vals, integer):
     if extra:
         import pandas
         df = pandas.concat([pandas.DataFrame(extra), df], axis=1)
+    from ..fillhelp import reindex
+    df = reindex(df, pres.get("index", "default"))
     return df, extra
 
 
@@ -306,14 +309,14 @@ def oracle(ctx, c, case=None):
 
 def base_case(c):
     b = dict(c)
-    b["pres"] = {"perm_seed": 0, "shuffle": False, "upper": "none", "extra": "none", "int": False}
+    b["pres"] = {"perm_seed": 0, "shuffle": False, "upper": "none", "extra": "none", "int": False, "index": "default"}
     b["env"] = "plain"
     return b
 
 
 def nondefault(c):
     p = c["pres"]
-    return p["shuffle"] or p["upper"] != "none" or p["extra"] != "none" or p["int"] or c["env"] != "plain"
+    return p["shuffle"] or p["upper"] != "none" or p["extra"] != "none" or p["int"] or c["env"] != "plain" or p.get("index", "default") != "default"
 
 
 def full_oracle(ctx, c):
@@ -419,6 +422,7 @@ def sub_fill(ctx):
 def cli_cases(draw):
     c = draw(cases())
     c["env"] = "plain"
+    c["cli_relations"] = draw(st.sampled_from(["name", "name", "path-lower", "path-Mixed"]))
     c["pres"] = dict(c["pres"], extra="V", int=False, upper=draw(st.sampled_from(["none", "all"])))
     c["flags"] = dict(c["flags"], residual_atol=0.1)
     return c
@@ -443,7 +447,14 @@ def cli_oracle(ctx, c):
             fp.write(" ".join(str(x) for x in df.columns) + "\n")
             for _, row in df.iterrows():
                 fp.write(" ".join(repr(float(x)) for x in row.values) + "\n")
-        args = ["-s", c["system"], "--drop-atol", repr(flags["drop_atol"])]
+        sysarg = c["system"]
+        if c.get("cli_relations", "name") != "name":
+            # a path to a user copy of the relations given in place of the system name (directory names with capitals too)
+            sub = os.path.join(d, "MgSiO3_Run" if c["cli_relations"] == "path-Mixed" else "run1")
+            os.mkdir(sub)
+            sysarg = os.path.join(sub, "Rules.txt" if c["cli_relations"] == "path-Mixed" else "rules.txt")
+            shutil.copy(os.path.join(REPO, "cij", "data", "constraints", c["system"]), sysarg)
+        args = ["-s", sysarg, "--drop-atol", repr(flags["drop_atol"])]
         if flags["ignore_rank"]:
             args.append("--ignore-rank")
         if flags["ignore_residuals"]:
